@@ -816,7 +816,7 @@ func (x *Exec) symbolicIf(fr *Frame, ins *ssa.If, b *ssa.BasicBlock, c *smt.Term
 		return outcome{}, b.Succs[1], ifNext
 	}
 	join := fr.info.ipdom[b.Index]
-	forkHere := x.e.ForkIn[fr.fn.String()] && x.mergeDepth == 0 && !fr.info.regionSimple(fr.fn, b)
+	forkHere := x.mergeDepth == 0 && (x.e.ForkAll[fr.fn.String()] || (x.e.ForkIn[fr.fn.String()] && !fr.info.regionSimple(fr.fn, b)))
 	if !x.e.noMerge[ins] && !forkHere {
 		out, merged := x.tryMerge(fr, ins, b, c, join, stop)
 		if merged {
